@@ -1,5 +1,5 @@
 """C41 the web API never exceeds the authority of the capability used."""
-import os, json, urllib.parse
+import os, sys, json, urllib.parse
 from hypothesis import strategies as st
 from vf import boot, mutfile, webmem, store
 from vf.core import pbytes
@@ -20,9 +20,9 @@ RULE = ("each case: a tree root{sub-rw -> S (write link), sub-ro -> S (read-only
         "a read-only base over a write link; distinct by whole case.")
 LEVEL_TEXT = "Random search over request forms and mixed-authority paths with a snapshot oracle."
 ASSUMPTIONS = ["requests are HTTP/1.0 over an in-memory transport; the /private token routes are outside this check", "a refusal is any status >= 400 (the web layer reports NotWriteableError as 500)"]
-REQUIRED_CLASSES = ["rw-base-through-ro-link", "ro-base-over-rw-link", "verify-cap", "refused", "allowed", "json-scan", "file-target", "mdmf"]
+REQUIRED_CLASSES = ["new-mutable-child", "rw-base-through-ro-link", "ro-base-over-rw-link", "verify-cap", "refused", "allowed", "json-scan", "file-target", "mdmf"]
 BUDGET = {"quick": 900, "thorough": 7200}
-DIR_OPS = ["put-child", "put-mkdir", "put-uri", "post-mkdir", "post-mkdir-children", "post-uri", "post-unlink", "post-delete", "post-rename", "post-relink", "post-set-children", "delete-child", "delete-self"]
+DIR_OPS = ["put-child", "put-child-mutable", "post-upload-mutable", "put-mkdir", "put-uri", "post-mkdir", "post-mkdir-children", "post-uri", "post-unlink", "post-delete", "post-rename", "post-relink", "post-set-children", "delete-child", "delete-self"]
 FILE_OPS = ["put-overwrite", "put-offset", "delete-self"]
 READS = ["json", "info", "html"]
 
@@ -77,7 +77,9 @@ def run_case(case, ctx):
         writecaps = {R.get_uri(), S.get_uri(), T.get_uri(), F.get_uri()}
         bases = {"root-rw": R.get_uri(), "root-ro": R.get_readonly_uri(), "S-ro": S.get_readonly_uri(), "F-ro": F.get_readonly_uri(),
                  "root-verify": R.get_verify_cap().to_string(), "F-verify": F.get_verify_cap().to_string()}
-        web = webmem.Web(g, g.add_client())
+        wc = g.add_client()
+        wc.keygen.i = 40            # fresh keys for files the gateway itself creates (not the fixture keys the set-up used)
+        web = webmem.Web(g, wc)
 
         def snapshot():
             out = {}
@@ -119,10 +121,21 @@ def run_case(case, ctx):
                 continue
             url = "/uri/" + urllib.parse.quote(bases[rq["base"]].decode("ascii")) + "".join("/" + urllib.parse.quote(names[seg]) for seg in rq["path"])
             method, body, q = "GET", b"", ""
+            extra_headers = None
             existing = {"root": names["lit"], "S": names["inner"], "T": "leaf"}.get(obj, "x")
             target_writeable = writeable
             if op == "put-child":
                 method, url, body = "PUT", url + "/newfile", b"new file contents " * 5
+            elif op == "put-child-mutable":
+                # a new MUTABLE file: the gateway would have to create and upload it before it can be linked
+                method, url, q, body = "PUT", url + "/newmutable", "?format=%s" % ("MDMF" if rq.get("arg", 0) % 2 else "SDMF"), b"new mutable file contents"
+                classes.add("new-mutable-child")
+            elif op == "post-upload-mutable":
+                method, q = "POST", "?t=upload&format=SDMF&name=newmutable2"
+                boundary = "BoUnDaRy"
+                body = ("--%s\r\nContent-Disposition: form-data; name=\"file\"; filename=\"x\"\r\nContent-Type: application/octet-stream\r\n\r\nposted mutable contents\r\n--%s--\r\n" % (boundary, boundary)).encode("ascii")
+                extra_headers = [("Content-Type", "multipart/form-data; boundary=%s" % boundary)]
+                classes.add("new-mutable-child")
             elif op == "put-mkdir":
                 method, url, q = "PUT", url + "/newdir", "?t=mkdir"
             elif op == "put-uri":
@@ -159,9 +172,12 @@ def run_case(case, ctx):
             elif op == "info":
                 q = "?t=info"
             before = snapshot() if op not in READS else None
-            resp = web.request(method, url + q, body=body)
+            resp = web.request(method, url + q, body=body, headers=extra_headers or ())
+            extra_headers = None
             g.sched.settle()
             hist.append((rq["base"], rq["path"], op, resp.code if resp else None))
+            if os.environ.get("VERIF_DEBUG"):
+                sys.stderr.write("DEBUG %s %s -> %r shares %d->%d body=%r\n" % (method, url + q, resp.code if resp else None, len(before or {}), len(snapshot()), (resp.body[-700:] if resp else None)))
             desc = "fmt=%s order=%s history=%r: %s %s" % (case["fmt"], case["order"], hist, method, (url + q)[:140])
             if resp is None:
                 ctx.fail("hang", "%s: the request never completed" % desc)
